@@ -342,6 +342,8 @@ def brackets(in_file, in_encoding, **params):
                     raise ValueError("unknown state")
             else:
                 raise ValueError("unknown lexer token class")
+        if state != 0:
+            raise ValueError("unexpected end of input inside a bracket group")
 
 
 def discobrackets(in_file, in_encoding, **params):
